@@ -52,6 +52,8 @@ StringDictionaryPFC::StringDictionaryPFC(IteratorDictString *it,
     this->bucketsize = 2;
   } else
     this->bucketsize = bucketsize;
+  // The rest of the constructor must see the corrected value too
+  bucketsize = this->bucketsize;
 
   this->buckets = 0;
   this->bytesStrings = 0;
